@@ -164,7 +164,9 @@ def run(rep: common.Report, tier: str, seed: int, replay=None) -> int:
     systems = [("um", "mT", "uA"), ("nm", "uT", "nA"), ("mm", "T", "mA"), ("um", "T", "mA"), ("nm", "mT", "uA"),
                ("m", "mT", "uA")]     # SI lengths: coordinates of order 1e-6
     B_T, I_A = 0.4e-3, 2.0e-6
-    for screening, ramp in ((False, False), (True, False), (False, True)):
+    # tpsi: the order parameter imposed on the contacts; with a non-zero value the phase of the film relative to the contacts is
+    # physical, so that an arbitrary (rounding-level, unit-dependent) constant in the scalar potential would show in |psi| and K
+    for screening, ramp, tpsi in ((False, False, 0.0), (True, False, 0.0), (False, True, 0.0), (False, False, 0.5)):
         frames, phys, failed, fields, grids = {}, {}, {}, {}, {}
         P_um = np.array([[0.7, -0.4, 0.8], [-1.5, 0.9, 1.5], [2.1, 0.2, -0.6], [0.0, 0.0, 2.0]])
         with tempfile.TemporaryDirectory(prefix="pyt_c08_") as td:
@@ -174,6 +176,7 @@ def run(rep: common.Report, tier: str, seed: int, replay=None) -> int:
                 if opts is None:
                     opts = runs.make_options(td, solve_time=0.25 if not screening else 0.06, dt_init=2e-3, dt_max=2e-2, save_every=10,
                                              field_units=fu, current_units=cu, include_screening=screening, screening_tolerance=1e-3,
+                                             terminal_psi=tpsi,
                                              output_file=f"{td}/r_{lu}_{fu}_{cu}_{int(screening)}{int(ramp)}.h5")
                 else:
                     # history form: ONE options object, re-stated in the next unit system (the earlier solutions are kept and
@@ -234,7 +237,7 @@ def run(rep: common.Report, tier: str, seed: int, replay=None) -> int:
                 continue
             ref = frames["um"]
             for lu in [k_ for k_ in frames if k_ != "um"]:
-                case = {"units": lu, "screening": screening, "time_dependent_field": ramp, "frames": len(ref)}
+                case = {"units": lu, "screening": screening, "time_dependent_field": ramp, "terminal_psi": tpsi, "frames": len(ref)}
                 if len(frames[lu]) != len(ref):
                     rep.violation("the same physical problem recorded a different number of frames in another unit system", case)
                     continue
@@ -272,7 +275,7 @@ def run(rep: common.Report, tier: str, seed: int, replay=None) -> int:
                                 np.max(np.abs(a_[okm] - b_[okm])) > 1e-5 * (np.max(np.abs(b_[okm])) + 1e-300):
                             rep.violation(f"Solution.{nm_} (physical units) depends on the unit system the problem was stated in", case)
                 rep.count(len(ref))
-                rep.nontrivial(("runs", lu, screening))
+                rep.nontrivial(("runs", lu, screening, ramp, tpsi))
         rep.sample({"systems": systems, "screening": screening, "frames": len(ref), "B_tesla": B_T, "I_amp": I_A})
     # ---------- a drive that depends on height (current loop above the film) with the film at z0 != 0 ----------
     from tdgl.sources import CurrentLoop
